@@ -81,6 +81,13 @@ claim("C03", "proof", "provenance normal forms of the success outcomes of the ra
       "Trusted: C06; value-preservation of try_into/checked_add on success; semantics of <[u8]>::get. String-table entries and note name/descriptor ranges are C15 / C14.",
       "DESIGN.md 5/C03")
 
+claim("C18", "proof", "interprocedural non-interference (taint) rule: uses of the file buffer and of the measured stream length are classified; length observers may only feed error-only guards",
+      "The file buffer is followed from minimal_parse through every function it is handed to and through ElfBytes.data in every accessor; each of its ~260 uses is an exact "
+      "closed-range get, a bounded parse or a move. len()/is_empty()/open ranges/iteration/indexing on it, and stream_len, are allowed only in a comparison one of whose outcomes "
+      "is error-only. Hence a query that succeeds on a prefix performed only in-bounds exact reads and computes the same answer on the full file (argument in the evidence).",
+      "Trusted: <[u8]>::get(a..b) is exact; bounded parses read only through get (C04). Sub-buffers have header-designated extents and are not length-tainted.",
+      "DESIGN.md 5/C18")
+
 for pid in ["C01", "C02", "C03", "C04", "C05", "C06", "C07", "C08", "C09", "C10", "C11", "C12", "C13", "C14", "C15", "C16", "C17", "C18", "C20"]:
     if pid not in CLAIMS:
         na(pid, "static rule designed (DESIGN.md section 5) but its checker is not built yet in this revision; not claimed until it runs silent on the tree and fires on control mutants")
